@@ -124,7 +124,7 @@ def roundtrip(case, rec, prop):
                         viol('decode-raised', 'decoding (%s) the encoding of a valid value raised %r; encoding %s' % (
                             mode, e, enc_str[:300]), core.stone_frame_sig(e))
                         continue
-                    diff = values.same(idx, t, dec, v)
+                    diff = values.same(idx, t, dec, values.norm_roundtrip(idx, t, v))
                     if diff:
                         viol('roundtrip-differs', 'decode(encode(v)) != v (%s): %s; encoding %s' % (mode, diff, enc_str[:300]),
                              pyrt.path_kind(diff))
@@ -137,7 +137,7 @@ def roundtrip(case, rec, prop):
                     if not ref_json.json_equal(json.loads(json.dumps(again)), json.loads(json.dumps(enc_obj))):
                         viol('reencode-differs', 'encode(decode(encode(v))) != encode(v): %s vs %s' % (
                             json.dumps(again)[:300], enc_str[:300]))
-                    if M.Index(api).base(t)[0] == 'ref':
+                    if M.Index(api).base(t)[0] == 'ref' and values.norm_roundtrip(idx, t, v) == v:
                         try:
                             if not (dec == obj) or (dec != obj):
                                 viol('eq-disagrees', 'generated == says the round-tripped value differs (%s)' % mode)
